@@ -124,14 +124,17 @@ def child_env():
 
 
 def do_replay(path):
-    p = subprocess.run(
-        [sys.executable, "-m", "pv.runner", "--replay-internal", path],
-        capture_output=True,
-        text=True,
-        env=child_env(),
-        cwd=VERIF,
-        timeout=600,
-    )
+    try:
+        p = subprocess.run(
+            [sys.executable, "-m", "pv.runner", "--replay-internal", path],
+            capture_output=True,
+            text=True,
+            env=child_env(),
+            cwd=VERIF,
+            timeout=int(os.environ.get("VERIF_REPLAY_TIMEOUT", "120")),
+        )
+    except subprocess.TimeoutExpired:
+        return {"reproduced": False, "fp": None, "info": "concrete replay timed out"}
     for line in p.stdout.splitlines():
         if line.startswith("REPLAY-RESULT "):
             return json.loads(line[len("REPLAY-RESULT "):])
